@@ -37,6 +37,8 @@ var onceForms = []struct {
 	{"error-result-ok", FuncSpec{ID: "o", In: []Label{{"", 1, ""}}, Out: []Label{{"", 0, ""}}, InForm: FormPositional, OutForm: FormStruct, HasErr: true}},
 	{"named-in-out", FuncSpec{ID: "o", In: []Label{{"a", 1, ""}}, Out: []Label{{"a", 0, ""}}, InForm: FormStruct, OutForm: FormStruct}},
 	{"nil-pointer-struct", FuncSpec{ID: "o", In: []Label{{"", 1, ""}}, Out: []Label{{"", 0, ""}}, InForm: FormPositional, OutForm: FormPtrStruct, NilOut: true}},
+	// two inputs: the second one is resolved by a nested reach, which can fail in a later call
+	{"two-inputs", FuncSpec{ID: "o", In: []Label{{"", 1, ""}, {"", 2, ""}}, Out: []Label{{"", 0, ""}}, InForm: FormPositional, OutForm: FormPositional}},
 }
 
 type histOp struct {
@@ -63,6 +65,8 @@ var histOps = []histOp{
 	{name: "Redefine(tA)", redef: true, target: "tA"},
 	{name: "Redefine(tA; filter T2)", redef: true, target: "tA", hasF: true, filter: []int{2}},
 	{name: "Redefine(tB; T1=x1)", redef: true, target: "tB", inputs: []Input{{Label{"a", 1, ""}, "x1"}}},
+	{name: "Call(tA; T1=x1 T2=y1)", target: "tA", inputs: []Input{{Label{"", 1, ""}, "x1"}, {Label{"", 2, ""}, "y1"}}},
+	{name: "Call(tA; T1=x1 T3=z)", target: "tA", inputs: []Input{{Label{"", 1, ""}, "x1"}, {Label{"", 3, ""}, "z"}}},
 }
 
 // runHist executes the history on fresh shared objects and returns one observation
